@@ -40,13 +40,43 @@ func widthRange(w string) (lo, hi float64) {
 	case "uint32":
 		return 0, 4294967295
 	case "uint64":
-		return 0, 9007199254740992 // kept within float64-exact integers (see assumptions)
+		return 0, 9223372036854775807 // the upper half of uint64 is not generated
 	}
-	return -9007199254740992, 9007199254740992
+	return -9223372036854775808, 9223372036854775807
 }
 
 // intBounds returns the inclusive integer range a KInt type accepts.
 func intBounds(t T) (int64, int64) {
+	lo, hi := widthRange(t.Width)
+	ilo, ihi := int64(math.MinInt64), int64(math.MaxInt64)
+	if lo > -9.2e18 {
+		ilo = int64(lo)
+	}
+	if hi < 9.2e18 {
+		ihi = int64(hi)
+	}
+	if t.Min != nil {
+		m := int64(*t.Min)
+		if t.ExclMin {
+			m++
+		}
+		if m > ilo {
+			ilo = m
+		}
+	}
+	if t.Max != nil {
+		m := int64(*t.Max)
+		if t.ExclMax {
+			m--
+		}
+		if m < ihi {
+			ihi = m
+		}
+	}
+	return ilo, ihi
+}
+
+func intBoundsOld(t T) (int64, int64) {
 	lo, hi := widthRange(t.Width)
 	if t.Min != nil {
 		m := *t.Min
@@ -98,7 +128,7 @@ func (g *docGen) str(t T) string {
 func (g *docGen) intVal(t T) json.Number {
 	lo, hi := intBounds(t)
 	cands := []int64{lo, hi}
-	for _, c := range []int64{lo + 1, hi - 1, -1, 0, 1, 42} {
+	for _, c := range []int64{lo + 1, hi - 1, -1, 0, 1, 42, 9007199254740993, -9007199254740993} {
 		if c >= lo && c <= hi {
 			cands = append(cands, c)
 		}
@@ -229,6 +259,9 @@ func (g *docGen) value(t T, depth int) any {
 		}
 		out := map[string]any{}
 		keys := []string{"first", "second key", "k3"}
+		if depth%2 == 1 {
+			keys = []string{"inner", "other key", "k3"} // nested maps get other keys than their parent
+		}
 		for i := 0; i < n; i++ {
 			out[keys[i]] = g.value(*t.Elem, depth+1)
 		}
@@ -252,6 +285,19 @@ func (g *docGen) value(t T, depth int) any {
 	case KUScalars:
 		g.feats["union_of_scalars"] = true
 		b := t.Branches[rapid.IntRange(0, len(t.Branches)-1).Draw(g.t, "branch")]
+		if b.Kind == KInt {
+			hasFloat := false
+			for _, o := range t.Branches {
+				if o.Kind == KFloat {
+					hasFloat = true
+				}
+			}
+			if hasFloat {
+				// an integer in a union that also has a float branch may be held
+				// as a float: only values both represent exactly are used
+				return json.Number(strconv.Itoa(rapid.IntRange(-1000, 1000).Draw(g.t, "smallint")))
+			}
+		}
 		return g.value(b, depth+1)
 	case KUStructs:
 		g.feats["union_of_structs"] = true
@@ -561,7 +607,11 @@ func (g *faultGen) walk(v any, t T, steps []step, kinds []string, ctx []string) 
 	case KRef:
 		d := g.m.Def(t.Ref)
 		if d != nil {
-			g.walk(v, d.Type, steps, kinds, append(append([]string{}, ctx...), "ref"))
+			tag := "ref"
+			if d.Type.Kind == KArray || d.Type.Kind == KMap {
+				tag = "namedcoll"
+			}
+			g.walk(v, d.Type, steps, kinds, append(append([]string{}, ctx...), tag))
 		}
 	case KUStructs:
 		obj, ok := v.(map[string]any)
